@@ -431,7 +431,7 @@ def sortedStrict : List (List Char × Nat) → Bool
 /-- `MendelArraySorted` strictly ascending under `strcmp` (so `bsearch` finds a key iff it is present) and
     the same set of entries as `MendelArray`. -/
 def tablesOK (T : Tables) : Bool :=
-  sortedStrict T.mendelSorted && T.mendel.length == T.mendelSorted.length &&
+  sortedStrict T.mendelSorted && decide (T.mendelSorted.map (·.1)).Nodup && T.mendel.length == T.mendelSorted.length &&
   T.mendel.all (fun e => T.mendelSorted.contains e) && T.mendelSorted.all (fun e => T.mendel.contains e)
 
 end XrlParser.Hand
